@@ -124,6 +124,13 @@ def order_domain(ctx, repo):
                     if act_expr is None:
                         act_expr, act_fn = t, fn
     if act_expr is None:
+        from staticlib.guards import scope_functions as _scope
+
+        read = {_info_key(x) for f_ in _scope(pe, lf) for x in ast.walk(f_)} - {None}
+        if "start_date" in read and "end_date" not in read:
+            ctx.ob("O1", ok=False, distinct="activity")
+            ctx.violation("O1", "selection-ignores-end-date", pe.loc(lf) + " load_functions_for_date", "the selection of the implementations of a date reads `start_date` but never `end_date`: an implementation whose validity has ended (and that has no successor) stays in the environment of every later date")
+            return
         raise AnalysisError("activity test over __info__['start_date'/'end_date'] not found from load_functions_for_date")
     params = [a.arg for a in act_fn.args.args]
 
